@@ -170,6 +170,29 @@ CHECKS = {
         technique="Lean 4 proof (invariant by induction over steps) + SQL audit of real output databases compared with the model",
         ref="5/C09",
     ),
+    "C10": dict(
+        text="Theorems (Lean 4) over a model of the truth side of a step (one propagation job per agent, results applied in completion order, an arbitrary opaque "
+             "rest-of-system that may read the truth): an agent's new truth state is the propagation of its own previous state whatever the other agents and the completion "
+             "order are; two completion orders give the same truth; by induction over steps, two runs sharing dynamics, initial truth and propagation events have equal truth at "
+             "every step for ANY two rest-of-systems (estimation on/off, filters, rewards, decisions, sensors, noise, output cadence) and any permutation of job completions; "
+             "other agents are irrelevant; one call or consecutive calls are the same fold. Tied to the code by pairs of real runs on real Ray compared BIT FOR BIT on every "
+             "truth state per step and on the stored truth rows: truth-only, other policies, other noise seed, output every second step, uneven propagateTo splits, permuted "
+             "completions, extra/fewer targets, an extra sensor; two-body and perturbed truth, with an NTW impulse.",
+        note=BASE_TB + "that the real step has the modelled structure (the truth update reads nothing but truth) is exactly what the bit-for-bit pairs test; Ray's worker isolation is assumed and exercised.",
+        technique="Lean 4 proof (non-interference by induction, order independence) + bit-for-bit differential runs of real scenario pairs",
+        ref="5/C10",
+    ),
+    "C11": dict(
+        text="Theorems (Lean 4, corollaries of C04/C05 for the Terrestrial model): the state the site reports, converted back with the reduction of the same instant, is exactly "
+             "the configured Earth-fixed position at rest; the anchor computed at construction is the configured geodetic point; the inertial velocity is PNR(omega x W r) with "
+             "speed omega times the distance from the axis; the site is evaluated at start + t whenever the Julian-date round trip returns the start instant, and a witness "
+             "records the unrepaired one-second-early epoch. Tied to the code by a bit-exact comparison of Terrestrial.datetime_start with the time model and by running the "
+             "real dynamicsFactory/Terrestrial.propagate path for sites anywhere on Earth, odd-second starts, runs across UTC midnights, the 2016 leap second and year ends, and "
+             "facilities that join after the clock advanced, checking position (< 1 m), Earth-fixed velocity and inertial speed at every step.",
+        note=BASE_TB + "orthogonality of an instant's reduction matrices is a hypothesis of the theorems; the universally quantified Julian-date round trip is C05's (partial there).",
+        technique="Lean 4 corollaries of the frame and time theorems + real-code evaluation of the property at every step",
+        ref="5/C11",
+    ),
 }
 
 PLANNED = {}
